@@ -1414,13 +1414,16 @@ impl<T: Clone> Matrix<T> {
             "Row to insert must be <= to {}",
             self.rows()
         );
-        for column in 0..self.columns() {
-            self.data.insert(
-                self.get_index(row, column),
-                values.next().unwrap_or_else(|| {
-                    panic!("At least {} values must be provided", self.columns())
-                }),
-            );
+        // take the values before touching the matrix so that too few values cannot leave
+        // a partially inserted row behind
+        let new_row = values.by_ref().take(self.columns()).collect::<Vec<T>>();
+        assert!(
+            new_row.len() == self.columns(),
+            "At least {} values must be provided",
+            self.columns()
+        );
+        for (column, value) in new_row.into_iter().enumerate() {
+            self.data.insert(self.get_index(row, column), value);
         }
         self.rows += 1;
     }
